@@ -70,6 +70,8 @@ class Scenario:
         rs = self.returned_state
 
         async def wrapper():
+            info["started"] = True
+            info["t_start"] = self.loop.time()
             try:
                 r = await coro_fn()
             finally:
@@ -144,7 +146,7 @@ class Scenario:
         self.trace.append(NAMES[ev])
         if ev in DEVICE_BYTES:
             tr = w.transport
-            if tr is None or tr.closing:
+            if tr is None or tr.closing or not tr.made:
                 return False
             self.pending += DEVICE_BYTES[ev]
             self.pending_evs.append(ev)
@@ -207,12 +209,12 @@ class Scenario:
                 return False
         elif ev == EOF:
             tr = w.transport
-            if tr is None or tr.closing:
+            if tr is None or tr.closing or not tr.made:
                 return False
             tr.feed_eof()
         elif ev == RESET:
             tr = w.transport
-            if tr is None or tr.closing:
+            if tr is None or tr.closing or not tr.made:
                 return False
             tr.feed_reset()
         elif ev == REQUEST:
